@@ -2087,6 +2087,10 @@ class PyCdlib:
                                                 self.udf_file_set.root_dir_icb.log_block_num,
                                                 None)
 
+        # Zero-length files have no data extent to recognize hard links by;
+        # they are the same file exactly when they share the File Entry.
+        empty_file_entry_to_inode = {}  # type: Dict[int, inode.Inode]
+
         udf_file_entries = collections.deque([self.udf_root])
         while udf_file_entries:
             udf_file_entry = udf_file_entries.popleft()
@@ -2149,14 +2153,20 @@ class PyCdlib:
                         if self.eltorito_boot_catalog is not None and abs_file_data_extent == self.eltorito_boot_catalog.extent_location():
                             self.eltorito_boot_catalog.add_dirrecord(next_entry)
                         else:
-                            if abs_file_data_extent in extent_to_inode:
-                                ino = extent_to_inode[abs_file_data_extent]
+                            if next_entry.get_data_length() > 0:
+                                inode_map = extent_to_inode
+                                inode_key = abs_file_data_extent
+                            else:
+                                inode_map = empty_file_entry_to_inode
+                                inode_key = abs_file_entry_extent
+                            if inode_key in inode_map:
+                                ino = inode_map[inode_key]
                             else:
                                 ino = inode.Inode()
                                 ino.parse(abs_file_data_extent,
                                           next_entry.get_data_length(),
                                           self._cdfp, self.logical_block_size)
-                                extent_to_inode[abs_file_data_extent] = ino
+                                inode_map[inode_key] = ino
                                 self.inodes.append(ino)
 
                             ino.linked_records.append((next_entry, False))
